@@ -162,6 +162,24 @@ def check(case, ctx):
         if not isinstance(m, str) or not m.strip():
             raise Violation("empty-message", f"{desc}: {type(e).__name__} renders to {m!r}")
         rendered.append(m)
+    # the same validation through validators one constructs oneself with the documented factory arguments
+    from d42.validation import Validator
+    from th import PathHolder
+
+    class _Result(ValidationResult):
+        pass
+
+    class _Path(PathHolder):
+        pass
+    for label, own in (("validation_result_factory=<zero-argument callable>", Validator(validation_result_factory=lambda: ValidationResult())),
+                       ("validation_result_factory=<ValidationResult subclass>", Validator(validation_result_factory=_Result)),
+                       ("path_holder_factory=<PathHolder subclass>", Validator(path_holder_factory=_Path))):
+        try:
+            own_res = S.__accept__(own, value=values.realize(case["value"]))
+        except Exception as e:  # noqa
+            raise Violation(f"validate-raises:{type(e).__name__}", f"{desc} through Validator({label}) raised {e!r}")
+        if len(own_res.get_errors()) != len(errors):
+            raise Violation("own-validator-differs", f"{desc}: {len(errors)} errors, through Validator({label}) {len(own_res.get_errors())}")
     try:
         fr = format_result(res)
     except Exception as ex:  # noqa
